@@ -379,9 +379,26 @@ def op_load_trajectory_as_striped(ctx, e, ops, N, poison):
         md.Trajectory(x, top).save(fn)
         files.append(fn)
         xyz.append(md.load(fn).xyz)
-    ctx.fp('trj', N, tuple(len(x) for x in xyz), n_atoms, stride)
-    ctx.scenario.update(files=n_files, lengths=[len(x) for x in xyz], stride=stride)
+    per_file = t.flag(1, 3)
+    if per_file:
+        # one dict of md.load arguments per file: the argument list has to be striped exactly like the files
+        strides = [t.irange(1, 3) for _ in range(n_files)]
+        ctx.hit('striped_per_file_args')
+    else:
+        strides = [stride] * n_files
+    ctx.fp('trj', N, tuple(len(x) for x in xyz), n_atoms, tuple(strides), per_file)
+    ctx.scenario.update(files=n_files, lengths=[len(x) for x in xyz], stride=strides if per_file else stride)
     with simpool.installed(ctx):
-        outs = run_world(ctx, N, lambda r: io.load_trajectory_as_striped(list(files), stride=stride, processes=2),
-                         poison)
-    check_striped_load(ctx, N, outs, xyz, stride, 'load_trajectory_as_striped')
+        if per_file:
+            outs = run_world(ctx, N, lambda r: io.load_trajectory_as_striped(
+                list(files), args=[{'stride': s_} for s_ in strides], processes=2), poison)
+        else:
+            outs = run_world(ctx, N, lambda r: io.load_trajectory_as_striped(list(files), stride=stride, processes=2),
+                             poison)
+    want_len = [len(x[::s_]) for x, s_ in zip(xyz, strides)]
+    for r, (gl, data) in enumerate(outs):
+        require([int(v) for v in gl] == want_len, 'wrong_global_lengths', lambda: 'load_trajectory_as_striped rank %d: global_lengths %s, '
+                'the loaded files have %s' % (r, [int(v) for v in gl], want_len))
+        want = np.concatenate([x[::s_] for x, s_ in zip(xyz[r::N], strides[r::N])])
+        require(C.same(np.asarray(data), want), 'wrong_share', lambda: 'load_trajectory_as_striped rank %d of %d: its share differs '
+                '(shape %s vs %s)' % (r, N, np.asarray(data).shape, want.shape))
